@@ -105,7 +105,17 @@ def param_variants(line, rnd):
     key, val = m.group(1), int(m.group(2))
     out = []
     if key == "k":
-        hi = 8 if ("russian" in line or "trtri" in line) else 10
+        # the admissible range differs per routine: n tables of k bits are read as one word
+        if "trtri_upper_russian" in line:
+            hi = 16      # 4 tables
+        elif "ple_russian" in line or "pluq_russian" in line:
+            hi = 9       # 7 tables
+        elif "russian" in line:
+            hi = 8       # TRSM: 8 tables
+        elif "m4rm" in line:
+            hi = 16      # clamped to [2, 8] by the routine
+        else:
+            hi = 10      # elimination: 6 tables
         cands = [x for x in range(0, hi + 1) if x != val]
     else:
         cands = [x for x in [0, 1, 64, 100, 128, 192, 256, 320, 512, 1024, 4096] if x != val]
